@@ -141,8 +141,27 @@ func ruleL16Rootness(p *Prog, r *Report, count *int) {
 			st    *ssa.Store
 			owner ssa.Value
 			kind  string
+			// a re-basing helper called with constant prefixes: size = size - oldP + newP
+			call       *ssa.Call
+			oldP, newP int64
 		}
 		var sizes []sizeStore
+		eachInstr(f, func(in ssa.Instruction) {
+			c, ok := in.(*ssa.Call)
+			if !ok {
+				return
+			}
+			oi, ni, ok := rebaseHelper(c.Call.StaticCallee())
+			if !ok || len(c.Call.Args) <= max(oi, ni) || !isDataSlabPtr(c.Call.Args[0].Type()) {
+				return
+			}
+			o, ok1 := cInt(c.Call.Args[oi])
+			nw, ok2 := cInt(c.Call.Args[ni])
+			if !ok1 || !ok2 {
+				return
+			}
+			sizes = append(sizes, sizeStore{nil, c.Call.Args[0], typeName(c.Call.Args[0].Type()), c, o, nw})
+		})
 		eachInstr(f, func(in ssa.Instruction) {
 			st, ok := in.(*ssa.Store)
 			if !ok {
@@ -165,7 +184,7 @@ func ruleL16Rootness(p *Prog, r *Report, count *int) {
 			if !isDataSlabPtr(in2.X.Type()) {
 				return
 			}
-			sizes = append(sizes, sizeStore{st, in2.X, typeName(in2.X.Type())})
+			sizes = append(sizes, sizeStore{st: st, owner: in2.X, kind: typeName(in2.X.Type())})
 		})
 		ord := map[string]int{}
 		eachInstr(f, func(in ssa.Instruction) {
@@ -277,10 +296,21 @@ func ruleL16Rootness(p *Prog, r *Report, count *int) {
 					}
 					return 0, false
 				}
-				got, ok1 := constPartH(s.st.Val, pre, 0, map[ssa.Value]bool{}, hook)
+				var got int64
+				var ok1 bool
+				var at ssa.Instruction
+				if s.call != nil {
+					at = s.call
+					if pp, ok := p.expectedPrefix(s.kind, pre); ok {
+						got, ok1 = pp-s.oldP+s.newP, true
+					}
+				} else {
+					at = s.st
+					got, ok1 = constPartH(s.st.Val, pre, 0, map[ssa.Value]bool{}, hook)
+				}
 				want, ok2 := p.expectedPrefix(s.kind, post)
 				if !ok1 || !ok2 {
-					r.Unk(R, cons, p.InstrPos(s.st), "size expression outside the evaluator's vocabulary")
+					r.Unk(R, cons, p.InstrPos(at), "size expression outside the evaluator's vocabulary")
 					return
 				}
 				if got != want {
@@ -288,14 +318,17 @@ func ruleL16Rootness(p *Prog, r *Report, count *int) {
 					if !toRoot {
 						dir = "root -> non-root"
 					}
-					r.Bad(R, cons, p.InstrPos(s.st), "the re-basing of the slab whose root-ness changes ("+dir+") has constant part "+itoa64(got)+" where the prefix of the new state is "+itoa64(want)+": the reported size would differ from the bytes written")
+					r.Bad(R, cons, p.InstrPos(at), "the re-basing of the slab whose root-ness changes ("+dir+") has constant part "+itoa64(got)+" where the prefix of the new state is "+itoa64(want)+": the reported size would differ from the bytes written")
 					return
 				}
 			}
 			// coverage: every path on which the object is a data slab passes a re-basing (before the call, or after it)
 			isMine := func(z ssa.Instruction) bool {
 				for _, s := range mine {
-					if z == ssa.Instruction(s.st) {
+					if s.st != nil && z == ssa.Instruction(s.st) {
+						return true
+					}
+					if s.call != nil && z == ssa.Instruction(s.call) {
 						return true
 					}
 				}
@@ -382,3 +415,68 @@ func isSlabLike(t types.Type) bool {
 
 func itoa(i int) string     { return strconv.Itoa(i) }
 func itoa64(i int64) string { return strconv.FormatInt(i, 10) }
+
+// rebaseHelper: g's only effect is `p0.header.size = p0.header.size - pOld + pNew` on its first parameter (a data
+// slab), with pOld and pNew two other parameters; returns their positions.
+func rebaseHelper(g *ssa.Function) (oldIdx, newIdx int, ok bool) {
+	if g == nil || len(g.Blocks) != 1 || len(g.Params) < 3 || !isDataSlabPtr(g.Params[0].Type()) {
+		return 0, 0, false
+	}
+	var st *ssa.Store
+	n := 0
+	for _, in := range g.Blocks[0].Instrs {
+		switch x := in.(type) {
+		case *ssa.Store:
+			st = x
+			n++
+		case ssa.CallInstruction:
+			return 0, 0, false
+		}
+	}
+	if n != 1 {
+		return 0, 0, false
+	}
+	isSizeOfP0 := func(addr ssa.Value) bool {
+		fa, ok := addr.(*ssa.FieldAddr)
+		if !ok {
+			return false
+		}
+		if _, fn := structFieldName(fa.X.Type(), fa.Field); fn != "size" {
+			return false
+		}
+		in2, ok := fa.X.(*ssa.FieldAddr)
+		if !ok {
+			return false
+		}
+		_, fn := structFieldName(in2.X.Type(), in2.Field)
+		return fn == "header" && in2.X == ssa.Value(g.Params[0])
+	}
+	if !isSizeOfP0(st.Addr) {
+		return 0, 0, false
+	}
+	add, ok := st.Val.(*ssa.BinOp)
+	if !ok || add.Op != token.ADD {
+		return 0, 0, false
+	}
+	sub, ok := add.X.(*ssa.BinOp)
+	if !ok || sub.Op != token.SUB {
+		return 0, 0, false
+	}
+	ld, ok := sub.X.(*ssa.UnOp)
+	if !ok || ld.Op != token.MUL || !isSizeOfP0(ld.X) {
+		return 0, 0, false
+	}
+	oldIdx, newIdx = -1, -1
+	for i, q := range g.Params {
+		if sub.Y == ssa.Value(q) {
+			oldIdx = i
+		}
+		if add.Y == ssa.Value(q) {
+			newIdx = i
+		}
+	}
+	if oldIdx < 1 || newIdx < 1 {
+		return 0, 0, false
+	}
+	return oldIdx, newIdx, true
+}
